@@ -237,6 +237,8 @@ def check_obj(obj, label: str, problems: List[Dict[str, Any]], counters: Dict[st
               h.recv_time = -0.0
               h.src_mod_id = 12
               h.dest_mod_id = 3
+              h.remaining_bytes = 3
+              h.is_dynamic = 1
               h.num_data_bytes = ctypes.sizeof(obj)
               h.version = ver
               if hprof.endswith("unfilled"):
@@ -252,6 +254,8 @@ def check_obj(obj, label: str, problems: List[Dict[str, Any]], counters: Dict[st
                   h.dest_host_id = -32768
                   h.src_mod_id = -32768
                   h.dest_mod_id = 32767
+                  h.remaining_bytes = -2 ** 31
+                  h.is_dynamic = -1
               if tc:
                   h.utc_seconds, h.utc_fraction = stamp
               m = Message(h, obj)
